@@ -41,6 +41,8 @@ CONSTANTS N,              \* blocks are 1..N ; 0 is genesis
                           \*   "recheck"  : blocks.Add happens only if the block still extends the tip (F2)
                           \*   "stale"    : block messages of untrusted connections are ignored (F4)
                           \*   "blockinv" : a tip change is announced by headers even before "sendheaders" (F24)
+                          \*   "unknownkeeps" : a header that does not connect ends the message without dropping the block requests
+                          \*                    the earlier headers of the message caused (F42)
 CONSTANT Mut              \* "" or the name of a mutant (attack-script derivation only)
 
 Blocks == 1..N
@@ -157,8 +159,9 @@ HStep(s, b) ==
        ELSE LET s1 == [s EXCEPT !.inSync = FALSE, !.req = <<>>, !.toReq = <<>>,
                                 !.chain = SubSeq(@, 1, rh), !.lastSaved = IF Mut = "RevertNoSetLastHash" THEN @ ELSE ParX(b)]
             IN [TryRequest(s1, b) EXCEPT !.lastHash = b, !.modified = TRUE]
-  ELSE [s EXCEPT !.stop = TRUE, !.gd = <<>>,             \* unknown header: "return nil, nil" (:270); repaired ("unknownpoll"): the node
-                 !.inSync = IF "unknownpoll" \in Fix THEN FALSE ELSE @]     \* also leaves the in-sync state, so that check() asks for headers again
+  ELSE [s EXCEPT !.stop = TRUE,                           \* unknown header (:270): the rest of the message is not looked at.  It used to be
+                 !.gd = IF "unknownkeeps" \in Fix THEN @ ELSE <<>>,         \* "return nil, nil", which also dropped the requests collected so far
+                 !.inSync = IF "unknownpoll" \in Fix THEN FALSE ELSE @]     \* repaired ("unknownpoll"): the node leaves the in-sync state, check() polls again
 
 RECURSIVE HFold(_, _)
 HFold(s, hs) == IF hs = <<>> THEN s ELSE HFold(HStep(s, Head(hs)), Tail(hs))
@@ -179,7 +182,7 @@ HandleHeaders(hs) ==
        IN /\ chain' = s.chain /\ startH' = s.startH
           /\ req' = s.req /\ toReq' = s.toReq /\ lastSaved' = s.lastSaved
           /\ inSync' = s.inSync
-          /\ hdrReq' = IF s.modified /\ ~s.stop THEN FALSE ELSE hdrReq
+          /\ hdrReq' = IF s.modified /\ (~s.stop \/ "unknownkeeps" \in Fix) THEN FALSE ELSE hdrReq
           /\ out' = out \o [i \in 1..Len(s.gd) |-> GD(s.gd[i])]
           /\ UNCHANGED pendSync
 
